@@ -22,8 +22,8 @@ pub const L_PER_CONN: i64 = 512 * 1024;
 pub const SLACK: i64 = 1024 * 1024;
 /// constant part of the per-packet work bound (bytes allocated): re-examining one full
 /// per-direction buffer (64 KiB) costs the parsers ~17x its size in temporary allocations (lossy
-/// UTF-8 views, line vectors, frame copies - measured); 2 MiB leaves headroom above that constant
-pub const A_CONST: u64 = 2 * 1024 * 1024;
+/// UTF-8 views, line vectors, frame copies - measured 17x..21x depending on the bytes); 4 MiB is about 3x that plateau
+pub const A_CONST: u64 = 4 * 1024 * 1024;
 /// per-byte part of the per-packet work bound
 pub const B_PER_BYTE: u64 = 64;
 
@@ -41,6 +41,9 @@ pub enum Traffic {
     TlsAppDataAfterNonHello,
     /// random bytes without a SYN
     RandomNoSyn,
+    /// the SYN sender carries a complete *response* head (or the responder a request head), then endless data:
+    /// "complete HTTP data" for the quick check, never a message for the direction's parser
+    WrongKindThenEndless,
     /// contrast: a connection that completes (HTTP exchange / ClientHello) and then keeps sending
     Completing,
 }
@@ -104,6 +107,13 @@ fn stream_of(c: &LongConn) -> Stream {
             Stream { bytes: b, from_client: true, syn: true }
         }
         Traffic::RandomNoSyn => Stream { bytes: r.bytes(total), from_client: true, syn: false },
+        Traffic::WrongKindThenEndless => {
+            let from_client = r.chance(1, 2);
+            let mut b = if from_client { http1::response(&mut r, 0).bytes } else { http1::request(&mut r, 0).bytes };
+            let n = total.saturating_sub(b.len());
+            b.extend_from_slice(&if r.chance(1, 2) { r.bytes(n) } else { vec![b'z'; n] });
+            Stream { bytes: b, from_client, syn: true }
+        }
         Traffic::Completing => {
             let mut b = if r.chance(1, 2) {
                 http1::request(&mut r, 100).bytes
@@ -132,7 +142,7 @@ impl Prop for C11 {
     const ENGINE: &'static str = "netsim";
 
     fn rule() -> &'static str {
-        "one evaluation = one delivered segment of a long never-fingerprinting (or contrast) connection, with the counting allocator sampled around it; bounds: live - baseline <= connections x 512 KiB + 1 MiB, allocated per packet <= 2 MiB + 64 x packet length, and the median per-packet allocation of a connection's last tenth <= 2 x its first tenth + 1 MiB; non-trivial = the run delivers >= 500 segments on at least one connection that never yields a fingerprint; distinct = distinct event-log hash"
+        "one evaluation = one delivered segment of a long never-fingerprinting (or contrast) connection, with the counting allocator sampled around it; bounds: live - baseline <= connections x 512 KiB + 1 MiB, allocated per packet <= 4 MiB + 64 x packet length, and the median per-packet allocation of a connection's last tenth <= 2 x its first tenth + 2 MiB; non-trivial = the run delivers >= 500 segments on at least one connection that never yields a fingerprint; distinct = distinct event-log hash"
     }
 
     fn runs(tier: Tier) -> u64 {
@@ -156,7 +166,7 @@ impl Prop for C11 {
             let traffic = match kind {
                 Kind::Tls => *r.pick(&[Traffic::TlsHugeDeclared, Traffic::TlsAppDataAfterNonHello, Traffic::TlsAppDataAfterNonHello, Traffic::BinaryAfterSyn, Traffic::RandomNoSyn, Traffic::Completing]),
                 Kind::Tcp => *r.pick(&[Traffic::BinaryAfterSyn, Traffic::EndlessHttpHead, Traffic::RandomNoSyn, Traffic::Completing]),
-                _ => *r.pick(&[Traffic::EndlessHttpHead, Traffic::EndlessHttpHead, Traffic::EndlessHttpResponseHead, Traffic::BinaryAfterSyn, Traffic::TlsHugeDeclared, Traffic::TlsAppDataAfterNonHello, Traffic::RandomNoSyn, Traffic::Completing]),
+                _ => *r.pick(&[Traffic::EndlessHttpHead, Traffic::WrongKindThenEndless, Traffic::WrongKindThenEndless, Traffic::EndlessHttpResponseHead, Traffic::BinaryAfterSyn, Traffic::TlsHugeDeclared, Traffic::TlsAppDataAfterNonHello, Traffic::RandomNoSyn, Traffic::Completing]),
             };
             let n_segs = match tier {
                 Tier::Quick => *r.pick(&[200usize, 600, 1000, 2000]),
@@ -250,7 +260,7 @@ impl Prop for C11 {
                     return Err(Violation::new("retained-memory", key, format!("after segment {} of connection {} ({:?}, {} B segments): analyzer retains {} KiB above its baseline; bound {} connections x 512 KiB + 1 MiB = {} KiB", k, ci, c.traffic, c.seg_size, live_i / 1024, n_conn.min(s.cap.max(1) as i64), live_bound / 1024)));
                 }
                 if alloc_i > A_CONST + B_PER_BYTE * frame.len() as u64 {
-                    return Err(Violation::new("per-packet-work", key, format!("segment {} of connection {} ({:?}, {} B payload): handling it allocated {} KiB; bound 2 MiB + 64 x {} B = {} KiB", k, ci, c.traffic, b - a, alloc_i / 1024, frame.len(), (A_CONST + B_PER_BYTE * frame.len() as u64) / 1024)));
+                    return Err(Violation::new("per-packet-work", key, format!("segment {} of connection {} ({:?}, {} B payload): handling it allocated {} KiB; bound 4 MiB + 64 x {} B = {} KiB", k, ci, c.traffic, b - a, alloc_i / 1024, frame.len(), (A_CONST + B_PER_BYTE * frame.len() as u64) / 1024)));
                 }
             }
             if !progressed {
